@@ -1,60 +1,79 @@
 /-
   Property C18 — Fragment splitting helpers respect bracket and quote nesting.
   Property theorems only; helper lemmas live in Tranp/Lemmas/Block.lean, the model in Tranp/Model/Block.lean.
+  State of /repo: after the four C18 repairs (Param default with `=`, top-level `=` in decorator arguments, brackets inside
+  strings, parse_bracket around nested groups) — the former `_counterexample`s are proved statements now.
+  Fragments: `Frag.Simple f` = atoms are not bracket/quote characters, a quoted string does not contain its own quote
+  (it may contain delimiters, every bracket and the other quote).
 -/
 import Tranp.Lemmas.Block
-import Tranp.Lemmas.BlockDirty
+import Tranp.Lemmas.BlockParse
 
 namespace Tranp.C18
 open Tranp Tranp.Block Tranp.Generated.BlockPairs
 
 /-! ## `_skip_other_block` -/
 
-/-- Started on the opening bracket of a group whose content is a clean fragment (any nesting), `_skip_other_block`
-    returns the position right behind the matching closing bracket — whatever precedes and follows. -/
-theorem skip_group (k : BK) (i : Frag) (pre rest : Str) (hi : Frag.Clean i) :
+/-- Started on the opening bracket of a group whose content is a fragment (any nesting, any simple strings),
+    `_skip_other_block` returns the position right behind the matching closing bracket — whatever precedes and follows. -/
+theorem skip_group (k : BK) (i : Frag) (pre rest : Str) (hi : Frag.Simple i) :
     skipOther allPairs (pre ++ (Frag.group k i .nil).render ++ rest) pre.length
       = pre.length + (Frag.group k i .nil).render.length := by
   simp only [skipOther, Frag.render, List.append_assoc, List.drop_left, List.cons_append, List.nil_append,
     skipLen_group k i rest hi, List.length_cons, List.length_append, List.length_nil]
 
-/-- non-vacuity: `f([a, "x)"` is not clean, `f([a], {"k": 1})` is; skipping from the `(` of `f(…) + g` -/
+/-- non-vacuity: skipping `([a],{")": 1})` from the `(` of `f(…) + g` -/
 example :
-    let i : Frag := .group .sq (.atom 'a' .nil) (.atom ',' (.group .cur (.str .dq ['k'] (.atom ':' (.atom '1' .nil))) .nil))
-    Frag.Clean i ∧ skipOther allPairs (['f'] ++ (Frag.group .par i .nil).render ++ [' ', '+', ' ', 'g']) 1 = 14 := by
+    let i : Frag := .group .sq (.atom 'a' .nil) (.atom ',' (.group .cur (.str .dq [')'] (.atom ':' (.atom '1' .nil))) .nil))
+    Frag.Simple i ∧ skipOther allPairs (['f'] ++ (Frag.group .par i .nil).render ++ [' ', '+', ' ', 'g']) 1 = 14 := by
   decide
 
-/-- The same for a quoted string without bracket or quote characters inside (delimiters and blanks allowed). -/
-theorem skip_string (q : QK) (b : Str) (pre rest : Str) (hb : ∀ c ∈ b, has Frag.special c = false) :
+/-- The same for a quoted string that does not contain its own quote (brackets, the other quote, delimiters allowed). -/
+theorem skip_string (q : QK) (b : Str) (pre rest : Str) (hb : ∀ c ∈ b, c ≠ q.ch) :
     skipOther allPairs (pre ++ (Frag.str q b .nil).render ++ rest) pre.length
       = pre.length + (Frag.str q b .nil).render.length := by
   simp only [skipOther, Frag.render, List.append_assoc, List.drop_left, List.cons_append, List.nil_append,
     skipLen_str q b rest hb, List.length_cons, List.length_append, List.length_nil]
 
-example : skipOther allPairs (['x', '='] ++ (Frag.str .sq ['a', ',', ' ', 'b'] .nil).render ++ [',', 'y']) 2 = 8 := by
+example : skipOther allPairs (['x', '='] ++ (Frag.str .sq ['(', ',', '"', 'b'] .nil).render ++ [',', 'y']) 2 = 8 := by
   decide
 
 /-! ## `break_separator` -/
 
-/-- `break_separator` on (the text of) a clean fragment returns exactly the top-level pieces: the fragment is cut at every
+/-- `break_separator` on (the text of) a fragment returns exactly the top-level pieces: the fragment is cut at every
     top-level occurrence of the delimiter except one in the very last position, nowhere else, every piece is stripped of
-    surrounding blanks, an empty first piece is kept, and the empty text gives no piece. Holds for every delimiter character. -/
-theorem sep_spec (d : Char) (f : Frag) (hf : Frag.Clean f) :
-    breakSeparator f.render [d] = .ok (sepSpec d f) := by
-  rw [breakSeparator_clean d f hf, specGo_nil_eq_sepSpec]
+    surrounding blanks, an empty first piece is kept, and the empty text gives no piece. Holds for every delimiter
+    character and for arbitrary simple strings (brackets and the other quote inside). -/
+theorem sep_spec (d : Char) (f : Frag) (hf : Frag.Simple f) :
+    breakSeparator f.render [d] = .ok (sepSpec d f) :=
+  breakSeparator_simple d f hf
 
 /-- non-vacuity: `f(a,","), b,` — comma inside a group, inside a string, at top level and in the last position -/
 example :
     let f : Frag := .atom 'f' (.group .par (.atom 'a' (.atom ',' (.str .dq [','] .nil))) (.atom ',' (.atom ' ' (.atom 'b' (.atom ',' .nil)))))
-    Frag.Clean f ∧ breakSeparator f.render [','] = .ok [['f', '(', 'a', ',', '"', ',', '"', ')'], ['b', ',']] := by
+    Frag.Simple f ∧ breakSeparator f.render [','] = .ok [['f', '(', 'a', ',', '"', ',', '"', ')'], ['b', ',']] := by
+  decide
+
+/-- The former counterexample as a statement: the exact split also when a string contains a bracket. -/
+def sep_spec_dirty_statement : Prop :=
+  ∀ (d : Char) (f : Frag), Frag.Simple f → breakSeparator f.render [d] = .ok (sepSpec d f)
+
+theorem sep_spec_dirty : sep_spec_dirty_statement := sep_spec
+
+/-- the old witnesses: `"(", x` is two pieces now; `'"' "'", x` (quotes of the other kind inside) as well -/
+example :
+    let f : Frag := .str .dq ['('] (.atom ',' (.atom ' ' (.atom 'x' .nil)))
+    let g : Frag := .str .sq ['"'] (.atom ' ' (.str .dq ['\''] (.atom ',' (.atom 'x' .nil))))
+    Frag.Simple f ∧ breakSeparator f.render [','] = .ok [['"', '(', '"'], ['x']] ∧
+      Frag.Simple g ∧ breakSeparator g.render [','] = .ok [['\'', '"', '\'', ' ', '"', '\'', '"'], ['x']] := by
   decide
 
 /-- Every cut is a top-level delimiter: the fragment *is* `f₁ d f₂ d … fₙ` with the delimiter as a top-level atom between
-    clean (hence balanced) fragments, and the pieces returned are exactly the texts of `f₁ … fₙ`, stripped. -/
-theorem sep_only_top (d : Char) (f : Frag) (hf : Frag.Clean f) (hne : f ≠ .nil) :
-    ∃ fs : List Frag, Frag.join d fs = f ∧ (∀ p ∈ fs, Frag.Clean p) ∧
+    (balanced) fragments, and the pieces returned are exactly the texts of `f₁ … fₙ`, stripped. -/
+theorem sep_only_top (d : Char) (f : Frag) (hf : Frag.Simple f) (hne : f ≠ .nil) :
+    ∃ fs : List Frag, Frag.join d fs = f ∧ (∀ p ∈ fs, Frag.Simple p) ∧
       breakSeparator f.render [d] = .ok (fs.map fun p => strip p.render) := by
-  refine ⟨f.topSplit d, join_topSplit d f, clean_topSplit d f hf, ?_⟩
+  refine ⟨f.topSplit d, join_topSplit d f, simple_topSplit d f hf, ?_⟩
   rw [sep_spec d f hf, sepSpec, if_neg hne]
 
 example : Frag.join ',' [.atom 'a' .nil, .group .par (.atom ',' .nil) .nil] = .atom 'a' (.atom ',' (.group .par (.atom ',' .nil) .nil)) := by
@@ -62,7 +81,7 @@ example : Frag.join ',' [.atom 'a' .nil, .group .par (.atom ',' .nil) .nil] = .a
 
 /-- The pieces rejoined with the delimiter give back the text up to blanks around the pieces: there are segments with
     `d.join(segments) = text` and `pieces = [s.strip(' ') for s in segments]`. -/
-theorem sep_rejoin (d : Char) (f : Frag) (hf : Frag.Clean f) (hne : f ≠ .nil) :
+theorem sep_rejoin (d : Char) (f : Frag) (hf : Frag.Simple f) (hne : f ≠ .nil) :
     ∃ segs : List Str, Str.join [d] segs = f.render ∧ breakSeparator f.render [d] = .ok (segs.map strip) := by
   obtain ⟨fs, hj, _, hb⟩ := sep_only_top d f hf hne
   refine ⟨fs.map Frag.render, ?_, ?_⟩
@@ -73,13 +92,13 @@ theorem sep_rejoin (d : Char) (f : Frag) (hf : Frag.Clean f) (hne : f ≠ .nil) 
 example :
     let f : Frag := .atom ' ' (.atom 'a' (.atom ' ' (.atom '=' (.atom ' ' (.group .sq (.atom '=' .nil) (.atom ' ' .nil))))))
     let segs : List Str := [[' ', 'a', ' '], [' ', '[', '=', ']', ' ']]
-    Frag.Clean f ∧ f ≠ .nil ∧ Str.join ['='] segs = f.render ∧ breakSeparator f.render ['='] = .ok (segs.map strip) := by
+    Frag.Simple f ∧ f ≠ .nil ∧ Str.join ['='] segs = f.render ∧ breakSeparator f.render ['='] = .ok (segs.map strip) := by
   decide
 
-/-- No piece is unbalanced: every piece is the text of a clean fragment. -/
-theorem sep_balanced (d : Char) (f : Frag) (hf : Frag.Clean f) (pieces : List Str)
+/-- No piece is unbalanced: every piece is the text of a fragment. -/
+theorem sep_balanced (d : Char) (f : Frag) (hf : Frag.Simple f) (pieces : List Str)
     (h : breakSeparator f.render [d] = .ok pieces) :
-    ∀ p ∈ pieces, ∃ g : Frag, Frag.Clean g ∧ g.render = p := by
+    ∀ p ∈ pieces, ∃ g : Frag, Frag.Simple g ∧ g.render = p := by
   rw [sep_spec d f hf] at h
   injection h with h
   subst h
@@ -88,18 +107,26 @@ theorem sep_balanced (d : Char) (f : Frag) (hf : Frag.Clean f) (pieces : List St
   split at hp
   · simp at hp
   · obtain ⟨g, hg, rfl⟩ := List.mem_map.mp hp
-    exact ⟨g.lstrip.rstrip, clean_rstrip _ (clean_lstrip _ (clean_topSplit d f hf g hg)), (strip_render g).symm⟩
+    exact ⟨g.lstrip.rstrip, simple_rstrip _ (simple_lstrip _ (simple_topSplit d f hf g hg)), (strip_render g).symm⟩
 
 example :
     let f : Frag := .atom ' ' (.atom 'a' (.atom ' ' (.atom ':' (.group .cur (.atom ':' .nil) (.atom ' ' .nil)))))
-    Frag.Clean f ∧ breakSeparator f.render [':'] = .ok [['a'], ['{', ':', '}']] := by
+    Frag.Simple f ∧ breakSeparator f.render [':'] = .ok [['a'], ['{', ':', '}']] := by
+  decide
+
+/-- The model's loop always finishes: the recursion fuel (`len(text) + 1`) is never used up, for every text and delimiter
+    (together with the correspondence streams: the `while` loop of `break_separator` terminates). -/
+theorem sep_total (text d : Str) : breakSeparator text d ≠ .error .Fuel :=
+  sepLoop_no_fuel text d _ _ _ _ _ (Nat.lt_succ_self _)
+
+example : breakSeparator ['(', '"', ',', 'a'] [] = .ok [['(', '"', ',', 'a']] ∧ breakSeparator ['a'] [] = .error .IndexError := by
   decide
 
 /-! ## `break_last_block` -/
 
 /-- Taking the last bracket group of `prefix + group` returns that prefix and the group's inside, for every prefix and
     inside that are balanced fragments whose strings do not contain the brackets of the kind that is extracted
-    (they may contain the other brackets and quotes). -/
+    (they may contain the other brackets and quotes; `break_last_block` does not look at quotes at all). -/
 theorem last_block (k : BK) (pre inner : Frag) (hp : Frag.CleanFor k pre) (hi : Frag.CleanFor k inner) :
     breakLastBlock (pre.render ++ k.open :: (inner.render ++ [k.close])) [k.open, k.close]
       = .ok (pre.render, inner.render) :=
@@ -121,107 +148,66 @@ theorem last_block_error (o cl : Char) (text : Str) (h : (∀ c ∈ text, c ≠ 
 
 example : breakLastBlock ['a', '(', 'b'] ['(', ')'] = .error .IndexError := by decide
 
-/-- The three laws for fragments whose quoted strings are *arbitrary* simple strings (brackets and the other quote kind
-    allowed inside): the text is `f₁ d f₂ d … fₙ` at top level with balanced fragments `fᵢ`, and the pieces returned are
-    exactly their texts, stripped — every cut is a top-level delimiter, the pieces rejoin to the text up to blanks, no piece
-    is unbalanced. (A bracket inside a string makes the scanner skip too far, so not every top-level delimiter is a cut;
-    it never makes it cut inside a group or a string.) -/
-def sep_only_top_dirty_statement : Prop :=
-  ∀ (d : Char) (f : Frag), Frag.Simple f → f ≠ .nil →
-    ∃ fs : List Frag, Frag.join d fs = f ∧ (∀ p ∈ fs, Frag.Simple p) ∧
-      breakSeparator f.render [d] = .ok (fs.map fun p => strip p.render)
-
-theorem sep_only_top_dirty : sep_only_top_dirty_statement :=
-  fun d f hf hne => breakSeparator_simple d f hf hne
-
-/-- non-vacuity: `"(", x` (a bracket inside a string) stays in one piece; `(")"), x` is cut at the top-level comma -/
-example :
-    let f : Frag := .str .dq ['('] (.atom ',' (.atom ' ' (.atom 'x' .nil)))
-    let g : Frag := .group .par (.str .dq [')'] .nil) (.atom ',' (.atom ' ' (.atom 'x' .nil)))
-    Frag.Simple f ∧ ¬ Frag.Clean f ∧ breakSeparator f.render [','] = .ok [f.render] ∧
-      Frag.Simple g ∧ breakSeparator g.render [','] = .ok [['(', '"', ')', '"', ')'], ['x']] := by
-  decide
-
-/-- "On every fragment with simple strings the split is *exactly* the top-level split" — the completeness half, which
-    holds for clean fragments (`sep_spec`), is false once a string contains a bracket. -/
-def sep_spec_dirty_statement : Prop :=
-  ∀ (d : Char) (f : Frag), Frag.Simple f → breakSeparator f.render [d] = .ok (sepSpec d f)
-
-/-- witness `"(", x` → one piece instead of two -/
-theorem sep_spec_dirty_counterexample : ¬ sep_spec_dirty_statement := by
-  intro h
-  have := h ',' (.str .dq ['('] (.atom ',' (.atom ' ' (.atom 'x' .nil)))) (by decide)
-  revert this
-  decide
-
-/-- The model's loop always finishes: the recursion fuel (`len(text) + 1`) is never used up, for every text and delimiter
-    (together with the correspondence streams: the `while` loop of `break_separator` terminates). -/
-theorem sep_total (text d : Str) : breakSeparator text d ≠ .error .Fuel :=
-  sepLoop_no_fuel text d _ _ _ _ _ (Nat.lt_succ_self _)
-
-example : breakSeparator ['(', '"', ',', 'a'] [] = .ok [['(', '"', ',', 'a']] ∧ breakSeparator ['a'] [] = .error .IndexError := by
-  decide
-
 /-! ## `DecoratorHelper._parse` -/
 
-/-- For `path(args)` with a clean argument fragment: the path, `join_args = args`, and the argument dictionary built (by the
-    label rule of decorator.py:36-40) from exactly the top-level comma pieces of `args`. -/
-theorem decorator (path : Str) (args : Frag) (hp : ∀ x ∈ path, x ≠ '(') (ha : Frag.Clean args) :
+/-- For `path(args)`: the path, `join_args = args`, and the argument dictionary built (decorator.py:36-42) from exactly the
+    top-level comma pieces of `args` — for every argument fragment with simple strings. -/
+theorem decorator (path : Str) (args : Frag) (hp : ∀ x ∈ path, x ≠ '(') (ha : Frag.Simple args) :
     decoParse (path ++ '(' :: (args.render ++ [')']))
-      = .ok (path, decoArgs (sepSpec ',' args), args.render) :=
-  decoParse_clean path args hp ha
+      = (decoArgs (sepSpec ',' args)).bind fun a => .ok (path, a, args.render) :=
+  decoParse_simple path args hp ha
 
-/-- non-vacuity: `a.b(k="1,2", m=[x,y])` → path `a.b`, `{k: "1,2", m: [x,y]}` -/
+/-- non-vacuity: `a.b(k="1,2",m=[x,y],"(",g(j=1))` -/
 example :
-    let args : Frag := .atom 'k' (.atom '=' (.str .dq ['1', ',', '2'] (.atom ',' (.atom ' ' (.atom 'm' (.atom '='
-      (.group .sq (.atom 'x' (.atom ',' (.atom 'y' .nil))) .nil)))))))
-    Frag.Clean args ∧ decoParse (['a', '.', 'b'] ++ '(' :: (args.render ++ [')']))
-      = .ok (['a', '.', 'b'], [(['k'], ['"', '1', ',', '2', '"']), (['m'], ['[', 'x', ',', 'y', ']'])], args.render) := by
-  decide
-
-/-- With arbitrary simple strings in the arguments (brackets, the other quote inside): path and `join_args` are still exact,
-    and the argument pieces are the texts of fragments that make up `args` when joined with top-level commas — arguments
-    can be merged (`"(", x` stays one piece), they are never cut inside a group or a string. -/
-theorem decorator_dirty (path : Str) (args : Frag) (hp : ∀ x ∈ path, x ≠ '(') (ha : Frag.Simple args) (hne : args ≠ .nil) :
-    ∃ fs : List Frag, Frag.join ',' fs = args ∧ (∀ p ∈ fs, Frag.Simple p) ∧
-      decoParse (path ++ '(' :: (args.render ++ [')']))
-        = .ok (path, decoArgs (fs.map fun p => strip p.render), args.render) :=
-  decoParse_simple path args hp ha hne
-
-/-- non-vacuity, and the merge on the current code: `a.b("(", x)` → `{'0': '"(", x'}` -/
-example :
-    let args : Frag := .str .dq ['('] (.atom ',' (.atom ' ' (.atom 'x' .nil)))
+    let a1 : Frag := .atom 'k' (.atom '=' (.str .dq ['1', ',', '2'] .nil))
+    let a2 : Frag := .atom 'm' (.atom '=' (.group .sq (.atom 'x' (.atom ',' (.atom 'y' .nil))) .nil))
+    let a3 : Frag := .str .dq ['('] .nil
+    let a4 : Frag := .atom 'g' (.group .par (.atom 'j' (.atom '=' (.atom '1' .nil))) .nil)
+    let args : Frag := Frag.join ',' [a1, a2, a3, a4]
     Frag.Simple args ∧ decoParse (['a', '.', 'b'] ++ '(' :: (args.render ++ [')']))
-      = .ok (['a', '.', 'b'], [(Str.natToDec 0, ['"', '(', '"', ',', ' ', 'x'])], args.render) := by
+      = .ok (['a', '.', 'b'], [(['k'], ['"', '1', ',', '2', '"']), (['m'], ['[', 'x', ',', 'y', ']']),
+          (['2'], ['"', '(', '"']), (['3'], ['g', '(', 'j', '=', '1', ')'])], args.render) := by
   decide +kernel
 
-/-- Each stored (key, value) reassembles to its argument piece: `label=value` when the piece contains `=`, else the piece
-    itself under its position. -/
-theorem decorator_reassemble (i : Nat) (arg : Str) :
-    (Str.count '=' arg > 0 → (decoKV i arg).1 ++ '=' :: (decoKV i arg).2 = arg) ∧
-    (Str.count '=' arg = 0 → decoKV i arg = (Str.natToDec i, arg)) :=
-  decoKV_reassemble i arg
+/-- A piece without a top-level `=` is stored verbatim under its position, whatever `=` are nested inside it. -/
+theorem decorator_piece_positional (i : Nat) (g : Frag) (hg : Frag.Simple g) (hno : Frag.noTop '=' g = true) :
+    decoKV i g.render = .ok (Str.natToDec i, g.render) :=
+  decoKV_positional i g hg hno
 
-example : decoKV 3 ['k', '=', 'a', '=', 'b'] = (['k'], ['a', '=', 'b']) := by decide
+/-- A piece `label=value` (first top-level `=`, label without leading blank, value not empty) is stored as exactly the
+    two texts around that `=`. -/
+theorem decorator_piece_labelled (i : Nat) (l v : Frag) (hl : Frag.Simple l) (hv : Frag.Simple v)
+    (hno : Frag.noTop '=' l = true) (hlead : l.lstrip = l) (hvn : v ≠ .nil) :
+    decoKV i (l ++ Frag.atom '=' v : Frag).render = .ok (l.render, v.render) :=
+  decoKV_labelled i l v hl hv hno hlead hvn
+
+example : decoKV 3 ['k', '=', 'a', '=', '=', 'b'] = .ok (['k'], ['a', '=', '=', 'b']) := by decide
 
 /-- "A positional argument (no top-level `=`) is stored verbatim under its position" — the arguments law for a single
-    positional argument. False on the current code: `arg.count('=')` also counts `=` nested in brackets and strings. -/
+    positional argument (the former counterexample `f(g(k=1))` is an instance). -/
 def decorator_positional_statement : Prop :=
-  ∀ (path : Str) (v : Frag), (∀ x ∈ path, x ≠ '(') → Frag.Clean v → Frag.noTop ',' v = true → Frag.noTop '=' v = true →
+  ∀ (path : Str) (v : Frag), (∀ x ∈ path, x ≠ '(') → Frag.Simple v → Frag.noTop ',' v = true → Frag.noTop '=' v = true →
     v ≠ .nil →
     decoParse (path ++ '(' :: (v.render ++ [')'])) = .ok (path, [(['0'], strip v.render)], v.render)
 
-/-- witness `f(g(k=1))`: stored as `{'g(k': '1)'}` -/
-theorem decorator_positional_counterexample : ¬ decorator_positional_statement := by
-  intro h
-  have := h ['f'] (.atom 'g' (.group .par (.atom 'k' (.atom '=' (.atom '1' .nil))) .nil))
-    (by decide) (by decide) (by decide) (by decide) (by decide)
-  revert this
-  decide
+theorem decorator_positional : decorator_positional_statement :=
+  fun path v hp hv hc he hne => decoParse_positional path v hp hv hc he hne
+
+/-- the old witness `f(g(k=1))` -/
+example :
+    let a : Str := ['g', '(', 'k', '=', '1', ')']
+    decoParse (['f', '('] ++ a ++ [')']) = .ok (['f'], [(['0'], a)], a) := by
+  decide +kernel
+
+/-- … and `f("u=v")` -/
+example :
+    let a : Str := ['"', 'u', '=', 'v', '"']
+    decoParse (['f', '('] ++ a ++ [')']) = .ok (['f'], [(['0'], a)], a) := by
+  decide +kernel
 
 /-! ## `CppViewHelper.Param.parse` -/
 
-/-- `type… name` (blank-separated non-empty clean tokens without top-level blank or `=`): the type tokens joined by one blank,
+/-- `type… name` (blank-separated non-empty tokens without top-level blank or `=`): the type tokens joined by one blank,
     the name, and an empty default. -/
 theorem param_plain (ts : List Frag) (nm : Frag) (h : ∀ t ∈ ts ++ [nm], ParamToken t) :
     paramParse (Frag.join ' ' (ts ++ [nm])).render = .ok (Str.join [' '] (ts.map Frag.render), nm.render, []) :=
@@ -236,61 +222,51 @@ example :
         = .ok (['u', 'n', 's', 'i', 'g', 'n', 'e', 'd', ' ', 'l', 'o', 'n', 'g'], ['n'], []) := by
   decide
 
-/-- `type… name = default` where the default is a clean fragment without a top-level `=`: the three parts
-    (the default stripped of surrounding blanks). -/
-theorem param (ts : List Frag) (nm df : Frag) (h : ∀ t ∈ ts ++ [nm], ParamToken t)
-    (hd : Frag.Clean df) (hde : Frag.noTop '=' df = true) :
+/-- `type… name = default`: the three parts come back for *every* default fragment (stripped of surrounding blanks) —
+    also one with a top-level `=` such as `x == y` (the former counterexample). -/
+def param_unrestricted_statement : Prop :=
+  ∀ (ts : List Frag) (nm df : Frag), (∀ t ∈ ts ++ [nm], ParamToken t) → Frag.Simple df →
     paramParse ((Frag.join ' ' (ts ++ [nm])).render ++ ' ' :: '=' :: ' ' :: df.render)
-      = .ok (Str.join [' '] (ts.map Frag.render), nm.render, strip df.render) :=
-  paramParse_default ts nm df h hd hde
+      = .ok (Str.join [' '] (ts.map Frag.render), nm.render, strip df.render)
 
-/-- non-vacuity: `const m<a, b> n = {1, 2}` -/
+theorem param_unrestricted : param_unrestricted_statement :=
+  fun ts nm df h hd => paramParse_default ts nm df h hd
+
+/-- non-vacuity: `const m<a, b> n = {1, 2}`, and the old witness `bool b = x == y` -/
 example :
     let t1 : Frag := .atom 'c' (.atom 'o' (.atom 'n' (.atom 's' (.atom 't' .nil))))
     let t2 : Frag := .atom 'm' (.group .ang (.atom 'a' (.atom ',' (.atom ' ' (.atom 'b' .nil)))) .nil)
     let nm : Frag := .atom 'n' .nil
     let df : Frag := .group .cur (.atom '1' (.atom ',' (.atom ' ' (.atom '2' .nil)))) .nil
-    (∀ t ∈ [t1, t2] ++ [nm], ParamToken t) ∧ Frag.Clean df ∧ Frag.noTop '=' df = true ∧
+    (∀ t ∈ [t1, t2] ++ [nm], ParamToken t) ∧ Frag.Simple df ∧
       paramParse ((Frag.join ' ' ([t1, t2] ++ [nm])).render ++ ' ' :: '=' :: ' ' :: df.render)
-        = .ok (['c', 'o', 'n', 's', 't', ' ', 'm', '<', 'a', ',', ' ', 'b', '>'], ['n'], ['{', '1', ',', ' ', '2', '}']) := by
+        = .ok (['c', 'o', 'n', 's', 't', ' ', 'm', '<', 'a', ',', ' ', 'b', '>'], ['n'], ['{', '1', ',', ' ', '2', '}']) ∧
+      paramParse ['b', 'o', 'o', 'l', ' ', 'b', ' ', '=', ' ', 'x', ' ', '=', '=', ' ', 'y']
+        = .ok (['b', 'o', 'o', 'l'], ['b'], ['x', ' ', '=', '=', ' ', 'y']) := by
   decide
-
-/-- The same without the restriction on the default value: every clean default fragment comes back. False on the current
-    code: a default with a top-level `=` (`x == y`) is cut into more than two pieces and dropped. -/
-def param_unrestricted_statement : Prop :=
-  ∀ (ts : List Frag) (nm df : Frag), (∀ t ∈ ts ++ [nm], ParamToken t) → Frag.Clean df →
-    paramParse ((Frag.join ' ' (ts ++ [nm])).render ++ ' ' :: '=' :: ' ' :: df.render)
-      = .ok (Str.join [' '] (ts.map Frag.render), nm.render, strip df.render)
-
-/-- witness `bool b = x == y` → `('bool', 'b', '')` -/
-theorem param_counterexample : ¬ param_unrestricted_statement := by
-  intro h
-  have := h [.atom 'b' (.atom 'o' (.atom 'o' (.atom 'l' .nil)))] (.atom 'b' .nil)
-    (.atom 'x' (.atom ' ' (.atom '=' (.atom '=' (.atom ' ' (.atom 'y' .nil)))))) (by decide) (by decide)
-  revert this
-  decide
-
-example : paramParse ['b', 'o', 'o', 'l', ' ', 'b', ' ', '=', ' ', 'x', ' ', '=', '=', ' ', 'y']
-    = .ok (['b', 'o', 'o', 'l'], ['b'], []) := by decide
 
 /-! ## `parse_bracket` -/
 
-/-- "The first block returned for `name + group + tail` is the whole group, and every block has as many opening as closing
-    brackets." False on the current code: after a nested group `_parse` continues one character too far
-    (`index = end + 1`, block.py:147) and swallows the closer of the enclosing group. -/
-def bracket_statement : Prop :=
+/-- "The first block returned for `name + group + tail` is the whole group" (the block py2cpp uses), for a blank-free
+    name, a bracket-free tail and every fragment inside the group. The former counterexample `f(g(x))+1` is an instance. -/
+def bracket_first_statement : Prop :=
   ∀ (k : BK) (name tail : Str) (inner : Frag) (blocks : List Str),
-    (∀ c ∈ name ++ tail, has Frag.special c = false) → Frag.Clean inner →
+    (∀ c ∈ name, has Frag.special c = false ∧ has [' ', '\n', '\t'] c = false) →
+    (∀ c ∈ tail, has Frag.special c = false) → Frag.Simple inner →
     parseBracket (name ++ k.open :: (inner.render ++ k.close :: tail)) [k.open, k.close] = .ok blocks →
-    blocks.head? = some (k.open :: (inner.render ++ [k.close])) ∧
-      ∀ b ∈ blocks, Str.count k.open b = Str.count k.close b
+    blocks.head? = some (k.open :: (inner.render ++ [k.close]))
 
-/-- witness `f(g(x))+1` → `['(g(x))+1', '(x)']` -/
-theorem bracket_counterexample : ¬ bracket_statement := by
-  intro h
-  have := h .par ['f'] ['+', '1'] (.atom 'g' (.group .par (.atom 'x' .nil) .nil))
-    [['(', 'g', '(', 'x', ')', ')', '+', '1'], ['(', 'x', ')']] (by decide) (by decide) (by decide)
-  revert this
+theorem bracket_first : bracket_first_statement :=
+  fun k name tail inner blocks hn ht hi h => parseBracket_first k name tail inner blocks hn ht hi h
+
+/-- the old witnesses: `f(g(x))+1`, `a(b(c(d)))`, `f(g[(1)](x), y)` — all blocks are whole groups now -/
+example :
+    parseBracket ['f', '(', 'g', '(', 'x', ')', ')', '+', '1'] ['(', ')']
+      = .ok [['(', 'g', '(', 'x', ')', ')'], ['(', 'x', ')']] ∧
+    parseBracket ['a', '(', 'b', '(', 'c', '(', 'd', ')', ')', ')'] ['(', ')']
+      = .ok [['(', 'b', '(', 'c', '(', 'd', ')', ')', ')'], ['(', 'c', '(', 'd', ')', ')'], ['(', 'd', ')']] ∧
+    parseBracket ['f', '(', 'g', '[', '(', '1', ')', ']', '(', 'x', ')', ',', ' ', 'y', ')'] ['(', ')']
+      = .ok [['(', 'g', '[', '(', '1', ')', ']', '(', 'x', ')', ',', ' ', 'y', ')'], ['(', 'x', ')']] := by
   decide
 
 end Tranp.C18
